@@ -90,7 +90,7 @@ def describe(r):
 
 
 def differential(ctx, jobs, srcs, kinds_bad=('DIFF', 'HALT', 'FAULT', 'ASMERROR'), allow_stack=True,
-                 do_shrink=True, max_report=3, label='diff'):
+                 do_shrink=True, max_report=3, label='diff', must_compile=False):
     """run VM and reference machine on the jobs; record violations (shrunk) in ctx"""
     cases, rejected = compile_cases(jobs)
     res = hidlib.run_parallel(cases, chunk=64)
@@ -108,6 +108,13 @@ def differential(ctx, jobs, srcs, kinds_bad=('DIFF', 'HALT', 'FAULT', 'ASMERROR'
     for k, v in tally.items(): st[k] = st.get(k, 0) + v
     st['rejected_by_compiler'] = st.get('rejected_by_compiler', 0) + len(rejected)
     if rejected: st.setdefault('rejected_samples', rejected[:3])
+    if must_compile and rejected:
+        # the jobs are valid programs by construction: a rejection is itself a failure of the property's "for every program"
+        jm = {j[0]: j for j in jobs}
+        for cid, err in rejected[:max_report]:
+            ctx.violations.append(dict(what='%s: valid program rejected by the compiler: %s' % (label, err[:200]), kind='REJECTED',
+                                       source=jm[cid][1], args=[a if isinstance(a, str) else a.decode('latin1') for a in jm[cid][2]],
+                                       config=dict(w=jm[cid][3], stack=jm[cid][4], unchecked=jm[cid][5])))
     ctx.stats['evaluations'] = ctx.stats.get('evaluations', 0) + len(cases)
     ctx.stats['distinct_nontrivial'] = ctx.stats.get('distinct_nontrivial', 0) + tally.get('agree', 0)
     jobmap = {j[0]: j for j in jobs}
